@@ -441,6 +441,10 @@ fn emit_modules(
     index: &mut Vec<Value>,
     separate_files: bool,
 ) {
+    let excluded: Vec<String> = env::var("CORPUS_EXCLUDE")
+        .map(|s| s.split(',').map(str::to_owned).collect())
+        .unwrap_or_default();
+    println!("cargo:rerun-if-env-changed=CORPUS_EXCLUDE");
     for (i, spec) in specs.iter().enumerate() {
         if i % shard_n != shard_i {
             continue;
@@ -480,7 +484,9 @@ fn emit_modules(
                         let file = out.join(format!("{}.rs", name));
                         fs::write(&file, &text).unwrap();
                         entry["file"] = json!(file.display().to_string());
-                        if !separate_files {
+                        if excluded.contains(&name) {
+                            entry["excluded"] = json!(true);
+                        } else if !separate_files {
                             let _ = writeln!(
                                 mods_rs,
                                 "pub mod {} {{ include!(concat!(env!(\"OUT_DIR\"), \"/{}.rs\")); }}",
